@@ -81,11 +81,14 @@ func runC09(e *Env) Outcome {
 	} else {
 		o := gen.DrawOpts(t)
 		o.Padding = false
-		// Records are left out: the value the library builds for a COMPLETE
-		// document containing records is already garbled (record keys alias one
-		// buffer), a pure decode/build defect outside this property that makes
-		// the full value unusable as reference.
-		o.Records = false
+		// Records used to be left out (record keys aliased the reader's buffer,
+		// so the full value was unusable as reference); since that was repaired
+		// in /repo (1edc894) they are drawn like everything else. A record is
+		// opaque to the completeness model; the prefix clause still applies to
+		// whatever the builder leaves behind for a record that was cut.
+		if !t.Chance("records-allowed", 2, 3) {
+			o.Records = false
+		}
 		// Forward references are left out as well: until its marker arrives a
 		// forward reference has no value, so "prefix" and "completely decoded"
 		// are not defined by the property for the positions that hold one (the
